@@ -19,6 +19,7 @@ import (
 	"strings"
 	"testing"
 	"time"
+	"unicode/utf8"
 
 	"github.com/AdguardTeam/AdGuardDNS/internal/agd"
 	"github.com/AdguardTeam/AdGuardDNS/internal/billstat"
@@ -27,6 +28,7 @@ import (
 	"google.golang.org/grpc"
 	"google.golang.org/grpc/codes"
 	"google.golang.org/grpc/status"
+	"google.golang.org/protobuf/proto"
 	"google.golang.org/protobuf/types/known/emptypb"
 	"pgregory.net/rapid"
 	"verif.local/harness/vstat"
@@ -58,6 +60,80 @@ func vc16Dev(i int) (id agd.DeviceID) {
 	return vc16ManyDevs[i]
 }
 
+// Strings that are not valid UTF-8: a proto3 string field holding one cannot
+// be marshaled, so an upload that carries such a record fails on the client.
+const (
+	vc16BadDevID agd.DeviceID  = "dev\xff1"
+	vc16BadCtry  geoip.Country = "\xc3\x28"
+)
+
+// vc16Switch is the uploader handed to the recorder.  It passes every upload
+// on to the real uploader until drain is set; then it takes what the recorder
+// still holds (and acknowledges it), so that "held" is observed exactly.
+type vc16Switch struct {
+	real  billstat.Uploader
+	drain bool
+	held  map[agd.DeviceID]billstat.Record
+}
+
+// Upload implements the billstat.Uploader interface for *vc16Switch.
+func (u *vc16Switch) Upload(ctx context.Context, records billstat.Records) (err error) {
+	if !u.drain {
+		return u.real.Upload(ctx, records)
+	}
+
+	for d, r := range records {
+		if r == nil {
+			continue
+		}
+
+		h := u.held[d]
+		q := h.Queries
+		h = *r
+		h.Queries += q
+		u.held[d] = h
+	}
+
+	return nil
+}
+
+// drainHeld switches sw to drain mode, refreshes once and returns what the
+// recorder held.
+func (w *vc16World) drainHeld(sw *vc16Switch) (held map[agd.DeviceID]billstat.Record) {
+	sw.drain = true
+	sw.held = map[agd.DeviceID]billstat.Record{}
+	_ = w.r.Refresh(context.Background())
+	w.log = append(w.log, fmt.Sprintf("drain: the recorder still held records for %d device(s)", len(sw.held)))
+
+	return sw.held
+}
+
+// checkHeld is the final conservation check with the held set observed:
+// delivered + held == recorded for every device (delivered may exceed by
+// allow[d], the amount not judged), and a held record carries the metadata of
+// the device's most recently recorded query.
+func (w *vc16World) checkHeld(held map[agd.DeviceID]billstat.Record, allow map[agd.DeviceID]int64) {
+	for d, h := range held {
+		if _, ok := w.recorded[d]; !ok && h.Queries != 0 {
+			w.fatalf("the recorder holds %d queries for device %q, which was never recorded", h.Queries, d)
+		}
+	}
+
+	for d, r := range w.recorded {
+		h := held[d]
+		switch got := w.delivered[d] + int64(h.Queries); {
+		case got < r:
+			w.fatalf("lost: device %q: %d queries delivered in successful uploads + %d still held = %d, %d recorded", d, w.delivered[d], h.Queries, got, r)
+		case got > r+allow[d]:
+			w.fatalf("double counting: device %q: %d queries delivered in successful uploads + %d still held = %d, %d recorded (not judged: %d)", d, w.delivered[d], h.Queries, got, r, allow[d])
+		}
+
+		if want := w.last[d]; h.Queries > 0 && (!h.Time.Equal(want.Time) || h.Country != want.Ctry || h.ASN != want.ASN || h.Proto != want.Proto) {
+			w.fatalf("device %q is held with {t=%s %q as%d p%d}, but its most recently recorded query is %s", d, h.Time.Sub(vc16Base), h.Country, h.ASN, h.Proto, want)
+		}
+	}
+}
+
 type vc16ErrColl struct{}
 
 func (vc16ErrColl) Collect(_ context.Context, _ error) {}
@@ -80,9 +156,14 @@ const (
 	vc16OpenErr
 	vc16SendErr
 	vc16CloseErr
+
+	// vc16EarlyOK: the server finishes the stream with OK before the client
+	// has sent everything: from the scripted position on every Send returns
+	// io.EOF, and CloseAndRecv, if called, reports OK.
+	vc16EarlyOK
 )
 
-var vc16KindNames = []string{"success", "open-error", "send-error", "close-error"}
+var vc16KindNames = []string{"success", "open-error", "send-error", "close-error", "early-ok"}
 
 type vc16Rec struct {
 	Dev  int
@@ -176,6 +257,24 @@ type vc16World struct {
 	recAfterFail map[agd.DeviceID]bool
 	nontrivial   bool
 	classes      map[string]bool
+
+	// badDev, if positive, is the index of the device whose ID is not valid
+	// UTF-8 in this case.
+	badDev int
+}
+
+// dev is the ID of the i-th device of this case.
+func (w *vc16World) dev(i int) (id agd.DeviceID) {
+	if w.badDev > 0 && i == w.badDev {
+		return vc16BadDevID
+	}
+
+	return vc16Dev(i)
+}
+
+// unmarshalable reports whether the pending record of d cannot be marshaled.
+func (w *vc16World) unmarshalable(d agd.DeviceID) bool {
+	return !utf8.ValidString(string(d)) || !utf8.ValidString(string(w.last[d].Ctry))
 }
 
 func (w *vc16World) fatalf(format string, args ...any) {
@@ -203,7 +302,7 @@ func (w *vc16World) record(rc *vc16Rec) {
 	m.N = w.n
 	// The start time is not monotone in recording order.
 	m.Time = vc16Base.Add(time.Duration(rc.T)*time.Second + time.Duration(rc.T)*time.Microsecond)
-	d := vc16Dev(rc.Dev)
+	d := w.dev(rc.Dev)
 	if prev, ok := w.last[d]; rc.Near == 4 {
 		m.Ctry, m.ASN = geoip.CountryNone, 0
 		if ok && (prev.Ctry != geoip.CountryNone || prev.ASN != 0) {
@@ -258,7 +357,7 @@ func (w *vc16World) record(rc *vc16Rec) {
 func (w *vc16World) recordBulk(n int) {
 	for i := 0; i < n; i++ {
 		w.n++
-		d := vc16Dev(i)
+		d := w.dev(i)
 		t := i % 13
 		m := vc16Meta{
 			N:     w.n,
@@ -276,7 +375,7 @@ func (w *vc16World) recordBulk(n int) {
 		}
 	}
 
-	w.log = append(w.log, fmt.Sprintf("Record one query for each of %d devices (%s .. %s)", n, vc16Dev(0), vc16Dev(n-1)))
+	w.log = append(w.log, fmt.Sprintf("Record one query for each of %d devices (%s .. %s)", n, w.dev(0), w.dev(n-1)))
 }
 
 // vc16Client is the scripted DNSServiceClient.
@@ -359,6 +458,12 @@ func (c *vc16Client) SaveDevicesBillingStat(
 		}
 	}
 
+	for d := range heldAtOpen {
+		if w.unmarshalable(d) {
+			w.classes["record-with-invalid-utf8-in-batch"] = true
+		}
+	}
+
 	if up != nil && up.streamNo == 1 && expect > 4096 {
 		w.classes["batch-over-4096-devices"] = true
 		if up.LaterOrOnly {
@@ -382,6 +487,7 @@ type vc16Stream struct {
 	failAt     int
 	midAt      int
 	midDone    bool
+	earlyOK    bool  // the server has finished the stream with OK; Sends return io.EOF
 	closed     bool  // CloseAndRecv has been called
 	broken     error // status of a stream that has failed
 	midDevs    map[agd.DeviceID]bool
@@ -396,7 +502,7 @@ func (s *vc16Stream) mid() {
 	s.midDevs = map[agd.DeviceID]bool{}
 	for i := range s.a.Mid {
 		s.w.classes["record-mid-stream"] = true
-		s.midDevs[vc16Dev(s.a.Mid[i].Dev)] = true
+		s.midDevs[s.w.dev(s.a.Mid[i].Dev)] = true
 		s.w.record(&s.a.Mid[i])
 	}
 
@@ -474,6 +580,21 @@ func (s *vc16Stream) Send(m *DeviceBillingStat) (err error) {
 		return io.EOF
 	}
 
+	if s.earlyOK || (s.a.Kind == vc16EarlyOK && len(s.msgs) == s.failAt && len(s.msgs) > 0) {
+		if !s.earlyOK {
+			w.log = append(w.log, fmt.Sprintf("Send #%d -> io.EOF (the server has finished the stream with OK)", len(s.msgs)))
+			w.classes["server-finished-ok-before-all-was-sent"] = true
+			s.markFailed()
+			if s.expect >= 5000 {
+				w.classes["backend-answers-ok-before-reading-the-whole-large-batch"] = true
+			}
+		}
+
+		s.earlyOK = true
+
+		return io.EOF
+	}
+
 	if len(s.msgs) == s.midAt {
 		s.mid()
 	}
@@ -501,6 +622,17 @@ func (s *vc16Stream) Send(m *DeviceBillingStat) (err error) {
 		}
 
 		w.log = append(w.log, fmt.Sprintf("Send #%d -> error", len(s.msgs)))
+
+		return s.broken
+	}
+
+	// As the real client does: a message that cannot be marshaled fails the
+	// Send with a client-side error and aborts the stream.
+	if _, merr := proto.Marshal(m); merr != nil {
+		w.log = append(w.log, fmt.Sprintf("Send {dev=%q ctry=%q} -> marshal error", m.DeviceId, m.ClientCountry))
+		w.classes["send-marshal-error"] = true
+		s.markFailed()
+		s.broken = status.Errorf(codes.Internal, "grpc: error while marshaling: %v", merr)
 
 		return s.broken
 	}
@@ -632,6 +764,13 @@ func (w *vc16World) refresh(a *vc16Attempt) {
 }
 
 func vc16DrawRec(t *rapid.T, nDev int) (rc vc16Rec) {
+	defer func() {
+		// Rarely a country string that is not valid UTF-8.
+		if rapid.IntRange(0, 40).Draw(t, "badCountry") == 23 {
+			rc.Meta.Ctry = vc16BadCtry
+		}
+	}()
+
 	return vc16Rec{
 		Dev: rapid.IntRange(0, nDev-1).Draw(t, "dev"),
 		Meta: vc16Meta{
@@ -652,7 +791,8 @@ func TestVerifC16Wire(t *testing.T) {
 		"refresh-with-done-context-nonempty", "open-error-done-context", "stream-cancelled-in-flight",
 		"send-error-eof", "near-miss-one-field", "unknown-location-after-known", "record-with-done-context",
 		"recorded-during-failed-upload-with-earlier-start-time", "recorded-during-failed-upload-with-equal-start-time", "recorded-during-failed-upload-with-later-start-time",
-		"batch-over-4096-devices", "batch-over-4096-devices-with-fault-on-later-rpc")
+		"batch-over-4096-devices", "batch-over-4096-devices-with-fault-on-later-rpc",
+		"record-with-invalid-utf8-in-batch", "never-deliverable-batch-stays-held", "server-finished-ok-before-all-was-sent")
 	st.Finish(t)
 
 	rapid.Check(t, func(t *rapid.T) {
@@ -667,6 +807,7 @@ func TestVerifC16Wire(t *testing.T) {
 			classes:      map[string]bool{},
 		}
 
+		sw := &vc16Switch{}
 		upl := &BillStat{
 			logger:      slogutil.NewDiscardLogger(),
 			errColl:     vc16ErrColl{},
@@ -674,16 +815,20 @@ func TestVerifC16Wire(t *testing.T) {
 			client:      &vc16Client{w: w},
 			apiKey:      rapid.SampledFrom([]string{"", "key"}).Draw(t, "apiKey"),
 		}
+		sw.real = upl
 
 		w.r = billstat.NewRuntimeRecorder(&billstat.RuntimeRecorderConfig{
 			Logger:   slogutil.NewDiscardLogger(),
 			ErrColl:  vc16ErrColl{},
-			Uploader: upl,
+			Uploader: sw,
 			Metrics:  billstat.EmptyMetrics{},
 		})
 
 		nDev := rapid.SampledFrom([]int{2, 1, 3, 4, 2, 7, 15, 40}).Draw(t, "nDev")
 		nRounds := rapid.IntRange(1, 7).Draw(t, "rounds")
+		if nDev > 1 && rapid.IntRange(0, 15).Draw(t, "badDevice") == 9 {
+			w.badDev = nDev - 1
+		}
 
 		// Rarely, one round records a query for each of very many devices,
 		// around and above 4096 per upload.
@@ -710,7 +855,7 @@ func TestVerifC16Wire(t *testing.T) {
 			}
 
 			a := &vc16Attempt{
-				Kind:    rapid.SampledFrom([]int{vc16OK, vc16OK, vc16OpenErr, vc16SendErr, vc16SendErr, vc16CloseErr}).Draw(t, "fault"),
+				Kind:    rapid.SampledFrom([]int{vc16OK, vc16OK, vc16OpenErr, vc16SendErr, vc16SendErr, vc16CloseErr, vc16EarlyOK}).Draw(t, "fault"),
 				SendAt:  rapid.SampledFrom([]int{0, 0, 340, 500, 670, 999}).Draw(t, "sendAt"),
 				ErrKind: rapid.IntRange(0, 4).Draw(t, "errKind"),
 				MidAt:   rapid.SampledFrom([]int{0, 500, 999}).Draw(t, "midAt"),
@@ -727,7 +872,7 @@ func TestVerifC16Wire(t *testing.T) {
 			}
 
 			nMid := rapid.SampledFrom([]int{0, 0, 1, 2}).Draw(t, "nMid")
-			fmt.Fprintf(key, "%c%d%d@%d%t(", "SOXC"[a.Kind], a.SendAt/250, a.Ctx, a.FaultStream, a.LaterOrOnly)
+			fmt.Fprintf(key, "%c%d%d@%d%t(", "SOXCE"[a.Kind], a.SendAt/250, a.Ctx, a.FaultStream, a.LaterOrOnly)
 			for j := 0; j < nMid; j++ {
 				rc := vc16DrawRec(t, nDev)
 				fmt.Fprintf(key, "%d,", rc.Dev)
@@ -745,21 +890,29 @@ func TestVerifC16Wire(t *testing.T) {
 		}
 
 		// Final successful flushes until the recorder has nothing left to send
-		// (no stream is opened for an empty set): everything recorded must now
-		// be delivered, exactly once.
+		// (no stream is opened for an empty set) or, with a record that cannot
+		// be marshaled, a few attempts; then what is still held is observed
+		// and the conservation equation is checked exactly.
 		for i := 0; i < 8; i++ {
 			before := w.streams
 			w.refresh(&vc16Attempt{Kind: vc16OK})
 			if w.streams == before {
 				break
 			}
-		}
 
-		for d := range w.recorded {
-			if w.delivered[d] != w.recorded[d] {
-				w.fatalf("after the final successful flushes device %s has %d queries delivered, %d recorded", d, w.delivered[d], w.recorded[d])
+			stuck := false
+			for d := range w.recorded {
+				stuck = stuck || (w.recorded[d] > w.delivered[d] && w.unmarshalable(d))
+			}
+
+			if stuck && i >= 1 {
+				w.classes["never-deliverable-batch-stays-held"] = true
+
+				break
 			}
 		}
+
+		w.checkHeld(w.drainHeld(sw), nil)
 
 		cl := []string{}
 		for c := range w.classes {
